@@ -183,5 +183,24 @@ def run(ctx):
     ctx.cov["rule"] = ("inputs: own preprocessed sources x3 targets (bootstrap fixed point), corpus (x3 targets in thorough), -E of corpus, "
                        "pooled generator outputs of other properties, Mutate.tla token-level mutants of the corpus; distinct = distinct "
                        "(input,target,mode,stdout hash); every one is non-trivial (both stages executed, outputs hashed, log validated by Stage.tla)")
+    # (2) of DESIGN.md section 5 C02: other properties' conformance suites with stage 2 as the implementation under test
+    if not ctx.quick:
+        conf = {}
+        for other in ("C13", "C14", "C10", "C11", "C09"):
+            if not os.path.exists(os.path.join(vlib.VERIF, "harness", "props", other.lower() + ".py")):
+                continue
+            evd = ctx.path("ev-" + other)
+            env = dict(os.environ, VERIF_IMPL="stage2", VERIF_EVIDENCE_DIR=evd, VERIF_TIER="quick")
+            try:
+                p = subprocess.run([os.path.join(vlib.VERIF, "check"), other, "--tier", "quick"], env=env, stdout=subprocess.PIPE, stderr=subprocess.STDOUT,
+                                   text=True, timeout=3600)
+                conf[other] = p.returncode
+                if p.returncode == 1:
+                    first = [l for l in p.stdout.splitlines() if l.startswith("VIOLATION") or "key=" in l][:4]
+                    ctx.violation("stage2-conformance:%s" % other, "stage 2 fails the %s conformance check that stage 1 passes: %s" % (other, first),
+                                  {"check": other, "output": p.stdout[-3000:]})
+            except subprocess.TimeoutExpired:
+                conf[other] = "timeout"
+        ctx.cov["stage2_conformance_runs"] = conf
     ctx.assumptions += ["stage 2 is built with il2c + gcc as backend substitute (no qbe in the sandbox); il2c is bound to QbeMachine.tla by C01",
                         "equality is observed on the explored inputs only"]
